@@ -263,7 +263,9 @@ def match_packages(
         # with the all-arches candidates
         allarches_kw: list[str] = []
         if allarches and stable and filter_arch:
-            allarches_kw = sort_keywords(suggested_keywords(repo, pkg, stable=True))
+            allarches_kw = sort_keywords(
+                suggested_keywords(repo, pkg, stable=True) & valid_arches
+            )
 
         if only_new:
             keywords = [
